@@ -132,3 +132,14 @@ mut("C20", "R20.1", "sevm", "return State(stack=self.stack.copy(), memory=self.m
 mut("C20", "R20.2", "sevm", "            fail_ex.st.push(ZERO)\n            fail_ex.advance()", "            fail_ex.balance_of(caller)\n            fail_ex.st.push(ZERO)\n            fail_ex.advance()", "inactive path touched before activation")
 mut("C20", "R20.3", "__main__", "                path = Path(solver)\n                path.extend_path(ex.path)\n                path.process_dyn_params(dyn_params)\n", "                path = ex.path\n                path.process_dyn_params(dyn_params)\n", "tests share the setUp path object")
 mut("C20", "R20.5", "sevm", 'f"balance_{uid()}_{1 + len(self.balances):>02}"', 'f"balance_{1 + len(self.balances):>02}" + ("" if uid() else "x")', "uid used outside a name")
+
+# ---- rounds 4/5: clauses found unguarded while testing the NamedTuple erasure and by the adversarial seed round
+mut("C14", "R14.1", "sevm", "        return caller, origin\n", "        return origin, caller\n", "resolve_prank returns the pair in the other order")
+mut("C02", "R02.10", "sevm", "        ex.path.append(cond, branching=True)\n        ex.alias[target] = addr\n", "        ex.path.append(cond, branching=True)\n        ex.alias[target] = cond\n", "alias records the condition instead of the address")
+mut("C09", "R09.7", "exceptions", "class OutOfGasError(ExceptionalHalt):", "class OutOfGasError(HalmosException):", "EVM failure class becomes a tool limit")
+mut("C14", "R14.6", "sevm", "                    new_ex.balance = orig_balance\n", "                    new_ex.balance = orig_balance\n                    new_ex.block = deepcopy(ex.block)\n", "block environment rolled back with a failed sub-call")
+mut("C16", "R16.8", "solve", "        self.solving_ctx.unsat_cores.append(unsat_core)\n", "        for known in self.solving_ctx.unsat_cores:\n            if set(unsat_core) <= set(known):\n                known.clear()\n                known.extend(unsat_core)\n                return\n        self.solving_ctx.unsat_cores.append(unsat_core)\n", "recorded core shrunk in place")
+mut("C20", "R20.10", "solve", "    executor: PopenExecutor = field(default_factory=PopenExecutor)", "    executor: PopenExecutor = PopenExecutor()", "one executor shared by every context")
+mut("C13", "R13.9", "sevm", "        if not is_eq(cond):\n            return\n        left, right = cond.arg(0), cond.arg(1)", "        if is_not(cond):\n            return self.process_cond(cond.arg(0))\n        if not is_eq(cond):\n            return\n        left, right = cond.arg(0), cond.arg(1)", "equalities learnt under a negation")
+mut("C05", "R05.7", "__main__", "        solver_output: SolverOutput = self._get_solver_output(future, path_ctx)\n        ctx.solver_outputs.append(solver_output)\n", "        solver_output: SolverOutput = self._get_solver_output(future, path_ctx)\n        if solver_output.result == unsat and not solver_output.unsat_core:\n            return\n        ctx.solver_outputs.append(solver_output)\n", "output recorded only on some paths")
+mut("C12", "R12.8", "__main__", "        path = Path(solver)\n        path.extend_path(ex.path)\n\n        # prepare calldata and dynamic parameters\n        calldata, dyn_params = mk_calldata(\n            abi, fun_info, args, new_symbol_id=ex.new_symbol_id\n        )\n        path.process_dyn_params(dyn_params)\n", "        path = Path(solver)\n\n        # prepare calldata and dynamic parameters\n        calldata, dyn_params = mk_calldata(\n            abi, fun_info, args, new_symbol_id=ex.new_symbol_id\n        )\n        path.process_dyn_params(dyn_params)\n        path.extend_path(ex.path)\n", "candidates registered before the path is extended")
